@@ -85,14 +85,50 @@ def programs(tier: str):
     for variant in ("sync", "async"):
         yield {"variant": variant, "limit": 1, "expiration": None, "L": 4, "attrs": True}
         yield {"variant": variant, "limit": 2, "expiration": 2, "L": 4, "attrs": True}
+    yield from fix_programs(tier)
+
+
+def fix_programs(tier: str):
+    """explicit-state searches run to a fixpoint: histories of every length"""
+    if tier == "quick":
+        for variant in ("sync", "async"):
+            for limit, expiration in ((1, None), (2, None), (3, None), (1, 2), (2, 2)):
+                yield {"variant": variant, "limit": limit, "expiration": expiration, "fix": True, "deadline_s": 1500, "validate": "first"}
+        for variant in ("msync", "masync"):
+            for limit, expiration in ((1, None), (2, None), (1, 2)):
+                yield {"variant": variant, "limit": limit, "expiration": expiration, "fix": True, "deadline_s": 1500, "validate": "first"}
+        return
+    for variant in ("sync", "async"):
+        for limit in (1, 2, 3):
+            for expiration in (None, 2, 5):
+                yield {"variant": variant, "limit": limit, "expiration": expiration, "fix": True, "deadline_s": 3000, "validate": "all", "kw": limit < 3 and expiration != 5}
+    for variant in ("msync", "masync"):
+        for limit, expiration in ((1, None), (2, None), (3, None), (1, 2), (2, 2), (1, 5)):
+            yield {"variant": variant, "limit": limit, "expiration": expiration, "fix": True, "deadline_s": 3000, "validate": "all", "r2": expiration is None}
 
 
 def explore_config(tier: str, program) -> dict:
+    if program.get("fix"):
+        return {"split_depth": 0}
     return {"split_depth": 2}
 
 
 def _ops(program) -> list[tuple]:
     ops: list[tuple] = []
+    if program.get("fix"):
+        # fixpoint search: a lean alphabet (three ==-equal keys or two receivers x two keys, one
+        # keyword form, both clock steps) - the state space must close
+        if program["variant"] in ("sync", "async"):
+            ops = [("call", None, k) for k in KEYS]
+            if program.get("kw"):
+                ops += [("kw", None, 1)]
+        else:
+            ops = [("call", r, k) for r in ("r1", "r1p") for k in (1, 1.0)]
+            if program.get("r2"):
+                ops += [("call", "r2", 1)]
+        if program["expiration"] is not None:
+            ops += [("adv", 1.0), ("adv", 4.0)]
+        return ops
     if program["variant"] in ("sync", "async"):
         ops += [("call", None, k) for k in KEYS]
         ops += [("kw", None, 1)]
@@ -107,34 +143,34 @@ def _ops(program) -> list[tuple]:
     return ops
 
 
-def execute(program, ch: Chooser) -> Result:  # noqa: C901, PLR0912, PLR0915
-    variant, limit, expiration, L = (
-        program["variant"],
-        program["limit"],
-        program["expiration"],
-        program["L"],
-    )
-    vtime.reset()
-    ops = _ops(program)
-    viols: list[dict] = []
-    produced: list[weakref.ref] = []
-    counter = {"n": 0}
-    last: dict = {}
-    is_async = variant in ("async", "masync")
-    loop = VLoop() if is_async else None
-    if loop:
-        loop.open()
-    try:
+class Run:
+    """One cache object with its reference model; `step(op)` applies one operation of the history
+    and evaluates the oracle.  Used by the history enumerator (`execute`) and by the fixpoint
+    search (`execute_fix`)."""
+
+    def __init__(self, program) -> None:  # noqa: C901, PLR0915
+        self.program = program
+        variant, limit, expiration = program["variant"], program["limit"], program["expiration"]
+        self.variant, self.limit, self.expiration = variant, limit, expiration
+        vtime.reset()
+        self.ops = _ops(program)
+        self.viols: list[dict] = []
+        self.produced: list[weakref.ref] = []
+        self.counter = {"n": 0}
+        self.last: dict = {}
+        self.is_async = variant in ("async", "masync")
+        self.loop = VLoop() if self.is_async else None
+        if self.loop:
+            self.loop.open()
+        self.nest: dict = {"key": None}
+        run = self
 
         def make(recv, arg):
-            counter["n"] += 1
-            p = Produced(recv, (type(arg).__name__, arg), counter["n"], vtime.now())
-            produced.append(weakref.ref(p))
-            last["p"] = p
+            run.counter["n"] += 1
+            p = Produced(recv, (type(arg).__name__, arg), run.counter["n"], vtime.now())
+            run.produced.append(weakref.ref(p))
+            run.last["p"] = p
             return p
-
-        nest: dict = {"key": None}
-        calls: dict = {}
 
         def decorate(f):
             if program.get("attrs"):
@@ -150,23 +186,27 @@ def execute(program, ch: Chooser) -> Result:  # noqa: C901, PLR0912, PLR0915
                 return cache(expiration=expiration)(f)  # limit defaults to 1
             return cache(limit=limit, expiration=expiration)(f)
 
+        self.fn = None
+        self.Owner = None
         if variant == "sync":
 
             @decorate
             def fn(k):
-                inner = nest["key"]
+                inner = run.nest["key"]
                 if inner is not None:
                     # memoised recursion: the body calls the cached function for another key
-                    nest["key"] = None
-                    calls["do"](("call", None, inner))
+                    run.nest["key"] = None
+                    run.nested_ok = run.do_call(("call", None, inner), nested=True) and run.nested_ok
                 return make(None, k)
 
+            self.fn = fn
         elif variant == "async":
 
             @decorate
             async def fn(k):
                 return make(None, k)
 
+            self.fn = fn
         elif variant == "msync":
 
             class Owner(Recv):
@@ -174,6 +214,7 @@ def execute(program, ch: Chooser) -> Result:  # noqa: C901, PLR0912, PLR0915
                 def fn(self, k):
                     return make(self.name, k)
 
+            self.Owner = Owner
         else:
 
             class Owner(Recv):  # type: ignore[no-redef]
@@ -181,137 +222,214 @@ def execute(program, ch: Chooser) -> Result:  # noqa: C901, PLR0912, PLR0915
                 async def fn(self, k):
                     return make(self.name, k)
 
-        if variant in ("sync", "async") and program.get("attrs"):
-            pass
-        recvs = {}
-        if variant in ("msync", "masync") and program.get("falsy"):
-            Owner.__len__ = lambda self: 0  # type: ignore[attr-defined]
-        if variant in ("msync", "masync"):
-            recvs = {"r1": Owner("r1", 1), "r1p": Owner("r1p", 1), "r2": Owner("r2", 2)}
+            self.Owner = Owner
 
-        def invoke(op):
-            _, r, k = op
-            if r is None:
-                call = (lambda: fn(k=k)) if op[0] == "kw" else (lambda: fn(k))
-            elif op[0] == "kw":
-                call = lambda: recvs[r].fn(k=k)  # noqa: E731
-            else:
-                call = lambda: recvs[r].fn(k)  # noqa: E731
-            if not is_async:
-                return call()
-            task = loop.create_task(call())
-            loop.run_ready()
-            if not task.done():
-                raise RuntimeError("cached coroutine did not finish")
-            return task.result()
+        self.recvs: dict = {}
+        if variant in ("msync", "masync") and program.get("falsy"):
+            self.Owner.__len__ = lambda self: 0  # type: ignore[attr-defined]
+        if variant in ("msync", "masync"):
+            self.recvs = {"r1": self.Owner("r1", 1), "r1p": self.Owner("r1p", 1), "r2": self.Owner("r2", 2)}
 
         # reference: recency list over keys, last production per key
-        recency: OrderedDict = OrderedDict()  # key -> None, most recent last
-        entry: dict = {}  # key -> (n, t_produced)
-        hist: list = []
-        hits = evictions = expiries = 0
-        typed_collision = False
-        seen_vals: set = set()
-        st = {"hits": 0, "evictions": 0, "expiries": 0, "typed": False, "nested_inv": 0}
-        gen: dict = {}
-        reused: list = []
-        NEXT = {1: 1.0, 1.0: True, True: 1}
+        self.recency: OrderedDict = OrderedDict()  # key -> None, most recent last
+        self.entry: dict = {}  # key -> (n, t_produced)
+        self.hist: list = []
+        self.seen_vals: set = set()
+        self.st = {"hits": 0, "evictions": 0, "expiries": 0, "typed": False, "nested_inv": 0}
+        self.nested_ok = True
 
-        def do_call(op, nested: bool = False) -> bool:  # noqa: C901, PLR0911, PLR0912
-            _, r, k = op
-            kind = "call" if op[0] == "rec" else op[0]
-            rname = recvs[r].name if r is not None else None  # changes when the receiver is renewed
-            key = (kind, rname, type(k).__name__, k)
-            argsig = (rname, (type(k).__name__, k))
-            if any(v == k and tv != type(k).__name__ for tv, v in seen_vals):
-                st["typed"] = True
-            seen_vals.add((type(k).__name__, k))
-            # what the reference knows at the instant of the lookup
-            top = list(recency)[-limit:]
-            known = entry.get(key)
-            before = counter["n"]
-            nested_before = st["nested_inv"]
-            last.pop("p", None)
-            if op[0] == "rec":
-                nest["key"] = NEXT[k] if type(k) is not bool else 1
-            got = invoke(("call", r, k) if op[0] == "rec" else op)
-            nest["key"] = None
-            invoked = (counter["n"] - before) - (st["nested_inv"] - nested_before)
-            if nested:
-                st["nested_inv"] += counter["n"] - before
-            now = vtime.now()
-            fresh = last.pop("p", None)
-            # (1) right key, not older than the expiration
-            if not isinstance(got, Produced):
-                viols.append(viol("value", "not-produced", "an object made by the function", repr(got)))
-                return False
-            if (got.recv, got.arg) != argsig:
+    def close(self) -> None:
+        if self.loop:
+            self.loop.shutdown()
+
+    def invoke(self, op):
+        _, r, k = op
+        fn, recvs, loop = self.fn, self.recvs, self.loop
+        if r is None:
+            call = (lambda: fn(k=k)) if op[0] == "kw" else (lambda: fn(k))
+        elif op[0] == "kw":
+            call = lambda: recvs[r].fn(k=k)  # noqa: E731
+        else:
+            call = lambda: recvs[r].fn(k)  # noqa: E731
+        if not self.is_async:
+            return call()
+        task = loop.create_task(call())
+        loop.run_ready()
+        if not task.done():
+            raise RuntimeError("cached coroutine did not finish")
+        return task.result()
+
+    NEXT = {"int": 1.0, "float": True, "bool": 1}  # by type name: 1 == 1.0 == True as dict keys
+
+    def do_call(self, op, nested: bool = False) -> bool:  # noqa: C901, PLR0911, PLR0912
+        limit, expiration = self.limit, self.expiration
+        viols, hist, st, counter, last = self.viols, self.hist, self.st, self.counter, self.last
+        recency, entry = self.recency, self.entry
+        _, r, k = op
+        kind = "call" if op[0] == "rec" else op[0]
+        rname = self.recvs[r].name if r is not None else None  # changes when the receiver is renewed
+        key = (kind, rname, type(k).__name__, k)
+        argsig = (rname, (type(k).__name__, k))
+        if any(v == k and tv != type(k).__name__ for tv, v in self.seen_vals):
+            st["typed"] = True
+        self.seen_vals.add((type(k).__name__, k))
+        # what the reference knows at the instant of the lookup
+        top = list(recency)[-limit:]
+        known = entry.get(key)
+        before = counter["n"]
+        nested_before = st["nested_inv"]
+        last.pop("p", None)
+        if op[0] == "rec":
+            self.nest["key"] = self.NEXT[type(k).__name__]
+        got = self.invoke(("call", r, k) if op[0] == "rec" else op)
+        self.nest["key"] = None
+        invoked = (counter["n"] - before) - (st["nested_inv"] - nested_before)
+        if nested:
+            st["nested_inv"] += counter["n"] - before
+        now = vtime.now()
+        fresh = last.pop("p", None)
+        self.last_obs = None
+        # (1) right key, not older than the expiration
+        if not isinstance(got, Produced):
+            viols.append(viol("value", "not-produced", "an object made by the function", repr(got)))
+            return False
+        if (got.recv, got.arg) != argsig:
+            viols.append(
+                viol(
+                    "right-key",
+                    "other-receiver" if got.arg == argsig[1] else "other-arguments",
+                    f"value produced for {argsig}",
+                    f"value produced for {(got.recv, got.arg)}",
+                    history=hist,
+                )
+            )
+            return False
+        age = now - got.t
+        if expiration is not None and age > expiration:
+            viols.append(viol("expiry", "stale-served", f"age <= {expiration}", f"age {age}", history=hist))
+            return False
+        if invoked > 1 or (invoked == 1 and got is not fresh):
+            viols.append(viol("value", "invoked-but-other-returned", "the fresh value", f"invocations={invoked}", history=hist))
+            return False
+        # (2) must hit when among the `limit` most recently used keys and unexpired
+        if key in top and known is not None:
+            n0, t0 = known
+            unexpired = expiration is None or (now - t0) < expiration
+            if unexpired and invoked:
                 viols.append(
-                    viol(
-                        "right-key",
-                        "other-receiver" if got.arg == argsig[1] else "other-arguments",
-                        f"value produced for {argsig}",
-                        f"value produced for {(got.recv, got.arg)}",
-                        history=hist,
-                    )
+                    viol("must-hit", f"limit={limit}", "answered from the cache", "function invoked again", history=hist)
                 )
                 return False
-            age = now - got.t
-            if expiration is not None and age > expiration:
-                viols.append(viol("expiry", "stale-served", f"age <= {expiration}", f"age {age}", history=hist))
+            if unexpired and not invoked and got.n != n0:
+                viols.append(viol("value", "superseded-served", f"invocation #{n0}", f"#{got.n}", history=hist))
                 return False
-            if invoked > 1 or (invoked == 1 and got is not fresh):
-                viols.append(viol("value", "invoked-but-other-returned", "the fresh value", f"invocations={invoked}", history=hist))
-                return False
-            # (2) must hit when among the `limit` most recently used keys and unexpired
-            if key in top and known is not None:
-                n0, t0 = known
-                unexpired = expiration is None or (now - t0) < expiration
-                if unexpired and invoked:
-                    viols.append(
-                        viol("must-hit", f"limit={limit}", "answered from the cache", "function invoked again", history=hist)
-                    )
-                    return False
-                if unexpired and not invoked and got.n != n0:
-                    viols.append(viol("value", "superseded-served", f"invocation #{n0}", f"#{got.n}", history=hist))
-                    return False
-            if not invoked:
-                st["hits"] += 1
-            else:
-                if known is not None and expiration is not None and (now - known[1]) >= expiration:
-                    st["expiries"] += 1
-                elif known is not None:
-                    st["evictions"] += 1
-                entry[key] = (got.n, got.t)
-            recency.pop(key, None)
-            recency[key] = None
-            # (3) never more than `limit` entries alive (checked when the outermost call is over)
-            got = fresh = None
-            if nested:
-                return True
-            alive = sum(1 for w in produced if w() is not None)
-            if alive > limit:
-                gc.collect()
-                alive = sum(1 for w in produced if w() is not None)
-            if alive > limit:
-                viols.append(viol("retention", f"limit={limit}", f"<= {limit} results alive", alive, history=hist))
-                return False
+        self.last_obs = ("hit" if not invoked else "miss", age)
+        if not invoked:
+            st["hits"] += 1
+        else:
+            if known is not None and expiration is not None and (now - known[1]) >= expiration:
+                st["expiries"] += 1
+            elif known is not None:
+                st["evictions"] += 1
+            entry[key] = (got.n, got.t)
+        recency.pop(key, None)
+        recency[key] = None
+        # (3) never more than `limit` entries alive (checked when the outermost call is over)
+        got = fresh = None
+        if nested:
             return True
+        alive = sum(1 for w in self.produced if w() is not None)
+        if alive > limit:
+            gc.collect()
+            alive = sum(1 for w in self.produced if w() is not None)
+        if alive > limit:
+            viols.append(viol("retention", f"limit={limit}", f"<= {limit} results alive", alive, history=hist))
+            return False
+        return True
 
-        nested_ok = [True]
-        calls["do"] = lambda op: nested_ok.__setitem__(0, do_call(op, nested=True) and nested_ok[0])
+    def step(self, op) -> bool:
+        """one operation of the history; False when the oracle stopped the execution"""
+        self.hist.append(list(op))
+        if op[0] == "adv":
+            vtime.advance(op[1])
+            self.last_obs = ("adv",)
+            return True
+        return bool(self.do_call(op) and self.nested_ok)
+
+    # ---- explicit-state interface (hv.xstate.fixpoint) ----
+    def enabled(self):
+        return self.ops
+
+    def apply(self, op):
+        self.last_obs = None
+        self.step(tuple(op))
+        return self.last_obs
+
+    def canon(self):
+        from hv import xstate
+
+        names = {id(r): n for n, r in self.recvs.items()}
+        horizon = (self.expiration or 0) + 1.0
+        c = xstate.Canon(names, horizon=horizon)
+        current = {n for n, _t in self.entry.values()}
+        c.current = current  # type: ignore[attr-defined]
+        roots = [self.fn] if self.fn is not None else [vars(self.Owner)["fn"]]
+        impl = tuple(c(r) for r in roots)
+        import haiway.helpers.caching as mod
+
+        e = self.expiration
+        ref = (
+            tuple(repr(k) for k in self.recency),
+            tuple(
+                (repr(k), None if e is None else repr(min(vtime.now() - t, e + 1.0)))
+                for k, (_n, t) in sorted(self.entry.items(), key=repr)
+            ),
+        )
+        alive = tuple(
+            sorted(
+                ((p.recv, repr(p.arg), c.t(p.t), p.n in current) for p in (w() for w in self.produced) if p is not None),
+                key=repr,
+            )
+        )
+        return (impl, xstate.module_state(mod, c), ref, alive)
+
+
+def _produced_canon(self, c):
+    return ("P", self.recv, repr(self.arg), c.t(self.t), self.n in getattr(c, "current", ()))
+
+
+Produced.__hv_canon__ = _produced_canon  # type: ignore[attr-defined]
+
+
+def execute_fix(program) -> Result:
+    """every history of ANY length over the alphabet: breadth-first search over canonical states
+    (implementation object graph + reference model) until no new state appears"""
+    from hv import xstate
+
+    r = xstate.fixpoint(
+        lambda: Run(program),
+        max_states=program.get("max_states", 60000),
+        validate_merges=program.get("validate", "all"),
+    )
+    outcome = f"fix/{program['variant']}/" + ("capped" if r["capped"] else "fixpoint")
+    obs = {k: v for k, v in r.items() if k != "violations"}
+    return Result(outcome, r["states"] > 3, r["violations"], obs, steps=r["transitions"], capped=r["capped"], xstates=r["states"], xinfo=obs)
+
+
+def execute(program, ch: Chooser) -> Result:
+    if program.get("fix"):
+        return execute_fix(program)
+    L = program["L"]
+    run = Run(program)
+    try:
         for _ in range(L):
-            op = ops[ch.choose(len(ops), "op")]
-            hist.append(list(op))
-            if op[0] == "adv":
-                vtime.advance(op[1])
-                continue
-            if not do_call(op) or not nested_ok[0]:
+            op = run.ops[ch.choose(len(run.ops), "op")]
+            if not run.step(op):
                 break
+        st = run.st
         hits, evictions, expiries, typed_collision = st["hits"], st["evictions"], st["expiries"], st["typed"]
         nontrivial = hits > 0 and (evictions > 0 or expiries > 0 or typed_collision)
-        outcome = f"{variant}/hits={min(hits, 3)}/ev={min(evictions, 2)}/exp={min(expiries, 2)}/tc={typed_collision}"
-        return Result(outcome, nontrivial, viols, {"history": hist, "invocations": counter["n"]})
+        outcome = f"{run.variant}/hits={min(hits, 3)}/ev={min(evictions, 2)}/exp={min(expiries, 2)}/tc={typed_collision}"
+        return Result(outcome, nontrivial, run.viols, {"history": run.hist, "invocations": run.counter["n"]})
     finally:
-        if loop:
-            loop.shutdown()
+        run.close()
